@@ -247,6 +247,7 @@ func runC05(c *Ctx) {
 			c.requireGuard("C05.import-doors", "_propose success", e.pos(), e.Guards, wSame("verifyProofForLastBlock(parent, votes) == nil", `^\$r\.verifyProofForLastBlock\(\$r\.nmap\[.*\$0.*\]\.block,\$1\)#2$`, `^nil$`))
 		}
 	}
+	runC05Extra(c)
 }
 
 // checkEnoughVote: enoughVote(voted, voters) ≡ voters == 0 ∨ voted > ⌊2·voters/3⌋.
@@ -335,4 +336,118 @@ func checkRebuiltVote(c *Ctx, fn *ssa.Function, name, wantHeight, wantID, wantNT
 		}
 	}
 	_ = token.NoPos
+}
+
+// runC05Extra: rules added after independently produced mutants were missed.
+func runC05Extra(c *Ctx) {
+	// (a) fast sync: every vote of the delivered list is filed under the validator index of its own signer
+	if pb := c.mustFn("consensus", "consensus", "processBlock"); pb != nil {
+		adds := c.calls(pb, byCallee("heightVoteSet).add"))
+		ok := len(adds) == 1
+		if ok {
+			_, a := callArgs(adds[0].Common())
+			io, isCall := a[0].(*ssa.Call)
+			ok = isCall && methodName(io.Common()) == "IndexOf"
+			if ok {
+				r, ia := callArgs(io.Common())
+				adv := ia[0]
+				if mi, isMI := adv.(*ssa.MakeInterface); isMI {
+					adv = mi.X
+				}
+				if ci, isCI := adv.(*ssa.ChangeInterface); isCI {
+					adv = ci.X
+				}
+				ad, isAd := adv.(*ssa.Call)
+				ok = strings.HasSuffix(render(r), "$r.validators") && isAd && methodName(ad.Common()) == "address"
+				if ok {
+					ar, _ := callArgs(ad.Common())
+					// signer of the very message that is added
+					for {
+						if fa, isFA := ar.(*ssa.FieldAddr); isFA {
+							ar = fa.X
+							continue
+						}
+						break
+					}
+					ok = ar == a[1]
+				}
+			}
+		}
+		c.check(ok, "C05.fastsync-door", "processBlock files each vote under the validator index of its own signer", pb.Pos(), "hvs.add(validators.IndexOf(m.address()), m)", "votes of a delivered list are filed under another index (e.g. their list position): one validator signing twice counts as two voters")
+		if len(adds) == 1 {
+			c.requireAt("C05.fastsync-door", "processBlock adds only votes of known validators", adds[0].Instr, wGE("index ≥ 0", 0, t(1, `^\$r\.validators\.IndexOf\(`)))
+		}
+	}
+	// (b) the voters of a block are the validators designated by its parent
+	if gv := c.mustFn("block", "blockV2", "GetVoters"); gv != nil {
+		calls := c.calls(gv, byMethod("GetBlockByHeight"))
+		ok := len(calls) == 1
+		if ok {
+			_, a := callArgs(calls[0].Common())
+			l := linOf(a[0])
+			ok = len(l.T) == 1 && l.K == -1
+			for atom, co := range l.T {
+				if co != 1 || !strings.HasSuffix(atom, "$r.Height()") {
+					ok = false
+				}
+			}
+		}
+		c.check(ok, "C05.import-doors", "the voters of a block are looked up at its parent's height", gv.Pos(), "GetBlockByHeight(b.Height()-1)", "GetVoters does not read the block at height−1: commit votes are checked against another validator set than the one the parent designated")
+		for _, e := range successAlts(gv) {
+			if isNilConst(e.Results[0]) {
+				_, h0 := holds(e.Guards, wEQ("genesis", 0, t(1, `^\$r\.Height\(\)$`)))
+				c.check(h0, "C05.import-doors", "no voters only for the genesis block", e.pos(), "height == 0", "GetVoters returns no voters for a non-genesis block")
+				continue
+			}
+			c.check(strings.HasSuffix(render(e.Results[0]), ".NextValidators()") && strings.Contains(render(e.Results[0]), "GetBlockByHeight("), "C05.import-doors", "the voters are the parent's NextValidators", e.pos(), render(e.Results[0]), "GetVoters returns "+render(e.Results[0]))
+		}
+	}
+	// (c) consensus verifies against the validators the last block designates
+	if rh := c.mustFn("consensus", "consensus", "_resetForNewHeight"); rh != nil {
+		stores := fieldStores([]*ssa.Function{rh}, "consensus", "validators")
+		if len(stores) != 1 {
+			c.violate("C05.import-doors", "_resetForNewHeight refreshes the validator set at one place", rh.Pos(), fmt.Sprintf("%d stores", len(stores)))
+		} else {
+			st := stores[0].Store
+			c.check(render(st.Val) == "$r.lastBlock.NextValidators()", "C05.import-doors", "the validator set of the new height is the one designated by the last block", st.Pos(), "lastBlock.NextValidators()", "validators = "+render(st.Val))
+			tr, reach := pathAvoidingEdges(rh, nil, isReturn, isInstr(st), wSame("same set (hash equal)", `^\$r\.validators\.Hash\(\)$`, `^\$r\.lastBlock\.NextValidatorsHash\(\)$`))
+			c.check(!reach, "C05.import-doors", "the validator set is refreshed whenever its hash differs from the designated one", st.Pos(), "skip only when Hash() == NextValidatorsHash()", "a changed validator set can be kept (the refresh is skipped without the hashes being equal): votes of removed validators still count ("+traceString(tr)+")")
+			// lastBlock must be set before it is consulted
+			for _, fs := range fieldStores([]*ssa.Function{rh}, "consensus", "lastBlock") {
+				c.check(dominatesInstr(fs.Store, st) && render(fs.Store.Val) == "$0", "C05.import-doors", "the designating block is the block just finalized", fs.Store.Pos(), "lastBlock = prevBlock", "lastBlock is assigned late or from another value")
+			}
+		}
+	}
+	// (d) VerifyBlock accepts only after every item was verified
+	if vb := c.mustFn("consensus", "blockCommitVoteList", "VerifyBlock"); vb != nil {
+		var hdr *ssa.BasicBlock
+		for _, cs := range c.calls(vb, byCallee("signedBase).verify")) {
+			hdr = loopHeaderOf(cs.Instr.Block())
+		}
+		if hdr == nil {
+			c.violate("C05.item-no-bypass", "VerifyBlock verifies items in a loop", vb.Pos(), "no verification loop found")
+		} else {
+			body := loopBody(hdr)
+			for _, rs := range returnSites(vb) {
+				if isNilConst(rs.Results[0]) {
+					continue
+				}
+				c.check(!body[rs.Ret.Block()] || rs.Ret.Block() == hdr && false, "C05.item-no-bypass", "VerifyBlock accepts only after the whole list was verified", rs.pos(), "acceptance after the loop", "VerifyBlock can accept from inside the item loop: the remaining items (forged, duplicated, foreign) are never looked at")
+			}
+		}
+	}
+	// (e) the consensus path: commit only on +2/3 precommits — finalize-gate and tally rules of C01/C04
+	{
+		sub := &Ctx{Prop: c.Prop, Tier: c.Tier, L: c.L}
+		runC01(sub)
+		for _, o := range sub.obs {
+			if !strings.HasPrefix(o.Rule, "C01.finalize-gate") && !strings.HasPrefix(o.Rule, "C01.tally/") {
+				continue
+			}
+			o2 := *o
+			o2.Rule = "C05.consensus-door/" + strings.TrimPrefix(o.Rule, "C01.")
+			c.obs = append(c.obs, &o2)
+		}
+		c.callSites += sub.callSites
+	}
 }
